@@ -46,7 +46,8 @@ fn shape(node: &SyntaxNode, out: &mut String) {
             NodeOrToken::Token(t) => {
                 if !t.kind().is_trivia() {
                     out.push_str(" '");
-                    out.push_str(t.text());
+                    // one answer per line: line breaks inside a token (a string over several lines) are shown as pictures
+                    out.push_str(&t.text().replace('\n', "\u{2424}").replace('\r', "\u{240d}"));
                     out.push('\'');
                 }
             }
